@@ -56,3 +56,4 @@ run "ed4068c structural deepClone" C01 C12 -- ed4068c
 run "9344719 flags rejects arguments" C14 -- 9344719
 run "a127cb7 list-form merge chains" C10 -- a127cb7
 run "bf22a46 environment entries" C08 -- bf22a46
+run "a3599b9 interpolated markers" C07 -- a3599b9
